@@ -392,7 +392,7 @@ impl Loop3D {
             }
         }
         // And the midpoint must be in the loop.
-        if !self.test_point(s.midpoint()).unwrap() {
+        if !self.test_point(s.midpoint())? {
             return Ok(false);
         }
 
